@@ -40,7 +40,12 @@ RULE = (
     "suite tiles the sets to > 10^6 candidate pairs (temporal pre-binning); a "
     "third replays generated histories of calls on one Collocator over a pool "
     "of data sets (repeated, swapped, slightly displaced copies, sizes that "
-    "flip the build side).  Oracle = long-double brute force.  Non-trivial = "
+    "flip the build side); a fourth keeps the SAME xarray.Dataset objects "
+    "over the history and overwrites their lat / lon / time arrays in place "
+    "between the calls (many purely spatial calls without window, mostly "
+    "NaN-free sets), the oracle following the current values.  Every call "
+    "also asserts that collocate leaves its input datasets unchanged.  "
+    "Oracle = long-double brute force.  Non-trivial = "
     "at least one expected pair and one non-pair within 3x of a threshold "
     "(distance in (r, 3r] or |dt| in [M, 3M]).  Distinct = distinct case hash."
 )
@@ -75,6 +80,30 @@ def times_of(pset):
 def payload_of(pset):
     ids = np.array(pset["id"], dtype=float)
     return np.stack([ids * 1.5, -ids], axis=1)
+
+
+def overwrite_dataset(ds, pset, layout):
+    """put the values of pset into the arrays of ds IN PLACE (same
+    xarray.Dataset, same ndarray objects) - a caller updating its buffers"""
+    lat, lon = P.to_arrays(pset)
+    time = times_of(pset)
+    ids = np.array(pset["id"], dtype="int64")
+    pay = payload_of(pset)
+    if layout["dim"] == "grid":
+        w = layout["width"]
+        nl = len(ids) // w
+        new = {"time": time.reshape(nl, w)[:, 0], "lat": lat.reshape(nl, w),
+               "lon": lon.reshape(nl, w), "id": ids.reshape(nl, w),
+               "payload": pay.reshape(nl, w, 2)}
+    else:
+        new = {"time": time, "lat": lat, "lon": lon, "id": ids,
+               "payload": pay}
+    for name, val in new.items():
+        arr = ds.variables[name].values
+        if not isinstance(arr, np.ndarray) or arr.shape != val.shape \
+                or not np.shares_memory(arr, ds.variables[name].values):
+            raise RuntimeError("harness: cannot update %s in place" % name)
+        arr[...] = val
 
 
 def make_dataset(pset, layout):
@@ -250,11 +279,15 @@ def transposed(e):
 # --------------------------------------------------------------------------
 # one call and its comparison
 # --------------------------------------------------------------------------
-def call_collocate(collocator, sets, layouts, call):
-    """one collocate() call described by plain data"""
+def call_collocate(collocator, sets, layouts, call, datasets=None):
+    """one collocate() call described by plain data; datasets = the (live)
+    xarray objects to pass, default: fresh ones"""
     a, b = call["primary"], call["secondary"]
-    d1 = make_dataset(sets[a], layouts[a])
-    d2 = make_dataset(sets[b], layouts[b])
+    if datasets is None:
+        d1 = make_dataset(sets[a], layouts[a])
+        d2 = make_dataset(sets[b], layouts[b])
+    else:
+        d1, d2 = datasets
     names = call.get("names")
     arg1 = (names[0], d1) if names else d1
     arg2 = (names[1], d2) if names else d2
@@ -408,6 +441,29 @@ def run_calls(case, ctx, calls, fresh):
     cache = {}
     shared = None if fresh else collocator_class()()
     prev_build = None
+    # "families" (in-place histories): the sets of one family are successive
+    # states of ONE xarray.Dataset that lives as long as the history and is
+    # overwritten in place when a call refers to another member
+    families = case.get("families")
+    live = {}
+
+    def dataset_for(idx, other):
+        if families is None:
+            return make_dataset(sets[idx], layouts[idx])
+        fam = families[idx]
+        if other is not None and families[other] == fam and other != idx:
+            # two different states of one object in one call: not possible
+            return make_dataset(sets[idx], layouts[idx])
+        if fam not in live:
+            live[fam] = [make_dataset(sets[idx], layouts[idx]), idx]
+        ent = live[fam]
+        if ent[1] != idx:
+            overwrite_dataset(ent[0], sets[idx], layouts[idx])
+            ent[1] = idx
+            ctx.label("inplace-update")
+        else:
+            ctx.label("same-object-again")
+        return ent[0]
     for k, call in enumerate(calls):
         r_km, m_s, start, end = thresholds(call)
         key = (call["primary"], call["secondary"], float(r_km), m_s, start,
@@ -431,7 +487,14 @@ def run_calls(case, ctx, calls, fresh):
                 _brief(sets[call["secondary"]]),
                 [layouts[call["primary"]], layouts[call["secondary"]]])
 
-        result, names = call_collocate(col, sets, layouts, call)
+        datasets = (dataset_for(call["primary"], None),
+                    dataset_for(call["secondary"], call["primary"]))
+        before = [d.copy(deep=True) for d in datasets]
+        result, names = call_collocate(col, sets, layouts, call, datasets)
+        for side, d, b4 in zip(("primary", "secondary"), datasets, before):
+            ctx.check(d.identical(b4), "input/modified", lambda: (
+                "collocate changed the %s dataset it was given:\nbefore: "
+                "%r\nafter: %r\n%s" % (side, b4, d, describe())))
         if m_s is None and (start is not None or end is not None):
             # (formerly a defect: without max_interval the window was ignored)
             # The claim (exp) is tried first; if the result is instead what
@@ -619,11 +682,11 @@ def window_specs(draw, all_times, whole_seconds):
 
 
 @st.composite
-def layouts_for(draw, pset, allow_grid):
+def layouts_for(draw, pset, allow_grid, allow_time=True):
     """layout of one set; may rewrite the set (grid: one time per line,
     time-as-dim: unique times)"""
     n = len(pset["id"])
-    kinds = ["n", "n", "n", "time"]
+    kinds = ["n", "n", "n", "time"] if allow_time else ["n", "n"]
     if allow_grid and n >= 2:
         kinds += ["grid", "grid"]
     kind = draw(st.sampled_from(kinds))
@@ -822,6 +885,83 @@ def history_cases(draw):
     return {"sets": sets, "layouts": layouts, "steps": steps}
 
 
+@st.composite
+def inplace_history_cases(draw):
+    """histories in which the caller keeps its xarray.Dataset objects and
+    overwrites lat / lon / time in place between the calls (drifting
+    platforms): every family = one live dataset, its members = successive
+    states.  Many calls are purely spatial without window (nothing in
+    collocate copies the input then) and most sets have no NaN."""
+    distance = draw(distance_specs(lo=0.01, hi=2000.0))
+    r_km = float(radius_km_exact(distance))
+    interval = draw(interval_specs())
+    m_s = interval["seconds"]
+    n_base = draw(st.integers(2, 3))
+    shapes = [(1, 4), (2, 12), (2, 12), (8, 30), (30, 60)]
+    sizes = [draw(st.sampled_from(shapes)) for _ in range(n_base)]
+    cloud = draw(P.clouds(r_km, m_s, n_sets=n_base, metric="chord",
+                          allow_nan=draw(st.sampled_from(
+                              [False, False, False, True])), sizes=sizes))
+    sets, layouts, families = [], [], []
+    for k, pset in enumerate(cloud["sets"]):
+        pset, lay = draw(layouts_for(pset, True, allow_time=False))
+        sets.append(pset)
+        layouts.append(lay)
+        families.append(k)
+    n_der = draw(st.integers(1, 3))
+    for d in range(n_der):
+        src = draw(st.integers(0, n_base - 1))
+        f = draw(st.sampled_from([0.5, 1.0 - 1e-3, 1.0 + 1e-3, 3.0, 3.0]))
+        bearing = draw(st.sampled_from(P.BEARINGS + [45.0]))
+        new = P.shifted(sets[src], f * r_km, bearing, 0)
+        dt_s = draw(st.sampled_from([0, 0, 0, m_s, -m_s, 1, 3 * m_s]))
+        new["t_ms"] = [t + dt_s * 1000 for t in new["t_ms"]]
+        sets.append(new)
+        layouts.append(layouts[src])
+        families.append(src)
+    members = {}
+    for idx, fam in enumerate(families):
+        members.setdefault(fam, []).append(idx)
+    all_times = sorted({t for s in sets for t in s["t_ms"]})
+    steps = []
+    a = draw(st.integers(0, len(sets) - 1))
+    b = draw(st.integers(0, len(sets) - 1))
+    spatial = draw(st.sampled_from([True, True, False]))
+    for k in range(draw(st.integers(2, 6))):
+        if k:
+            mode = draw(st.sampled_from(["update", "update", "update",
+                                         "same", "swap", "any"]))
+            if mode == "update":
+                # one side has been overwritten in place since the last call
+                if len(members[families[a]]) > 1 and (
+                        len(members[families[b]]) == 1 or draw(
+                            st.booleans())):
+                    a = draw(st.sampled_from(
+                        [i for i in members[families[a]] if i != a]))
+                elif len(members[families[b]]) > 1:
+                    b = draw(st.sampled_from(
+                        [i for i in members[families[b]] if i != b]))
+            elif mode == "swap":
+                a, b = b, a
+            elif mode == "any":
+                a = draw(st.integers(0, len(sets) - 1))
+                b = draw(st.integers(0, len(sets) - 1))
+            if draw(st.sampled_from([False] * 5 + [True])):
+                spatial = not spatial
+        step = draw(call_specs(
+            a, b, distance, None if spatial else interval, all_times, True,
+            window=draw(st.sampled_from([False, False, False, True]))
+            and not spatial))
+        steps.append(step)
+    return {"sets": sets, "layouts": layouts, "families": families,
+            "steps": steps}
+
+
+def check_inplace_history(case, ctx):
+    ctx.label("inplace-history")
+    run_calls(case, ctx, case["steps"], fresh=False)
+
+
 def suites(tier):
     return [
         Suite("direct", check_direct, strategy=direct_cases(),
@@ -830,4 +970,7 @@ def suites(tier):
               examples={"quick": 75, "thorough": 2500}),
         Suite("binned", check_direct, strategy=binned_cases(),
               examples={"quick": 8, "thorough": 150}),
+        Suite("histories-inplace", check_inplace_history,
+              strategy=inplace_history_cases(),
+              examples={"quick": 45, "thorough": 1500}),
     ]
